@@ -54,6 +54,9 @@ export function genSplitProject(rng, p) {
   const files = new Map([["entry.ts", new FileB("entry.ts")], ...libs.map((n) => [n, new FileB(n)])]);
   const hub = rng.chance(1, 2) ? new FileB("hub.ts") : null;
   if (hub) files.set("hub.ts", hub);
+  // no file-level binding (declaration or import) may carry the name of a type parameter: inside `type N<T> = … T<…>` the
+  // parameter wins, so an import `{ G3 as T }` used there is not the program that was split (false alarm, C09 thorough)
+  for (const F of files.values()) for (const n of decls.flatMap((x) => x[2])) F.locals.add(n);
   // 1. place declarations, choose local names (collisions across files on purpose)
   const place = new Map(), local = new Map();
   for (const d of decls) {
@@ -67,6 +70,21 @@ export function genSplitProject(rng, p) {
     if (F.locals.has(ln)) ln = d[1];
     while (F.locals.has(ln)) ln = d[1] + "_u" + F.n++;
     F.locals.add(ln); local.set(d[1], ln);
+  }
+  // a declaration named like the identifier the compiler makes up for same-named types of two files (`lib_ts__Same`)
+  if (rng.chance(1, 4)) {
+    const byLocal = new Map();
+    for (const d of decls) { const k = local.get(d[1]); byLocal.set(k, [...(byLocal.get(k) || []), d[1]]); }
+    const dup = [...byLocal.entries()].filter(([, xs]) => new Set(xs.map((x) => place.get(x))).size >= 2);
+    if (dup.length) {
+      const [nm, xs] = rng.pick(dup);
+      const mangled = place.get(rng.pick(xs)).replace(/[^A-Za-z0-9_]/g, "_") + "__" + nm;
+      const others = decls.filter((d) => !xs.includes(d[1]));
+      if (others.length) {
+        const d = rng.pick(others), F = files.get(place.get(d[1]));
+        if (!F.locals.has(mangled)) { F.locals.delete(local.get(d[1])); F.locals.add(mangled); local.set(d[1], mangled); }
+      }
+    }
   }
   const declByName = new Map(decls.map((d) => [d[1], d]));
   const exportsOf = new Map(); // decl name -> [{file, kind: named|default|ns, name, inner}]
